@@ -281,6 +281,23 @@ def _fn_aliases(j):
         return []
     free = [f["path"] for f in j.get("fns", []) if f.get("kind") in ("Fn", None) and "<" not in f["path"] and "{" not in f["path"]]
     out = []
+    # what the crate root offers under an API name, wherever (and under whatever name) it is defined:
+    # `pub use crate::common::sparse_by_block_count as probably_sparse`
+    backend = "fallback" if any(p_.startswith("libfs::fallback::") for p_ in free) and \
+        not any(p_.startswith("libfs::linux::") for p_ in free) else "linux"
+    for rx in j.get("reexports", []):
+        if rx.get("module") != "libfs" or rx.get("kind") != "Fn":
+            continue
+        name, tgt = rx.get("name"), rx.get("target")
+        if name in LIBFS_COMMON_FNS:
+            canon = "libfs::common::" + name
+        elif name in LIBFS_BACKEND_FNS:
+            canon = "libfs::%s::%s" % (backend, name)
+        else:
+            continue
+        if tgt != canon and canon not in free and tgt in free and tgt.startswith("libfs::"):
+            out.append((tgt, canon))
+    done = set(c for t_, c in out)
     for name in LIBFS_COMMON_FNS + LIBFS_BACKEND_FNS:
         cands = [p_ for p_ in free if p_.split("::")[-1] == name and p_.startswith("libfs::")]
         for backend in ("linux", "fallback"):
@@ -293,7 +310,7 @@ def _fn_aliases(j):
                 if not mine and backend == "linux" and "::fallback" not in "".join(cands) and \
                         any(f_.startswith("libfs::linux::") for f_ in free):
                     mine = [p_ for p_ in cands if "::fallback" not in p_]
-            if canon in free or len(mine) != 1:
+            if canon in free or canon in done or len(mine) != 1:
                 continue
             out.append((mine[0], canon))
             if name in LIBFS_COMMON_FNS:
@@ -327,6 +344,22 @@ def _api_aliases(crate_jsons):
 BUILDER_SPAWN = ("std::thread::builder::Builder::spawn", "std::thread::Builder::spawn")
 
 
+# the same system call under another library name: presented to the rules under the name they are written in
+# (same argument order unless a remap is given)
+PRIM_ALIASES = {
+    "std::os::unix::fs::FileExt::read_at": "rustix::io::read_write::pread",
+    "std::os::unix::fs::FileExt::write_at": "rustix::io::read_write::pwrite",
+    "rustix::fs::fd::fchmod": "std::fs::File::set_permissions",
+    "rustix::fs::fd::fchown": "std::os::unix::fs::fchown",
+    "rustix::fs::fd::futimens": "std::fs::File::set_times",
+    "std::fs::File::set_len": "rustix::fs::fd::ftruncate",
+    "std::fs::File::sync_all": "rustix::fs::fd::fsync",
+}
+FICLONE_REQ = 0x40049409
+FIEMAP_REQ = 0xC020660B
+LIBC_IOCTL = "libc::unix::linux_like::linux::ioctl"
+
+
 def _normalise_calls(j):
     """`thread::Builder::new().name(n).spawn(f)` starts a thread exactly as `thread::spawn(f)` does (the result is
     an io::Result around the same JoinHandle): the call is presented to the rules as the latter, without the
@@ -337,6 +370,23 @@ def _normalise_calls(j):
             if t.get("k") != "call":
                 continue
             fn_ = t.get("fn") or {}
+            o_ = fn_.get("orig")
+            if o_ in PRIM_ALIASES:
+                fn_["orig_alias_of"] = o_
+                fn_["orig"] = PRIM_ALIASES[o_]
+                fn_["path"] = PRIM_ALIASES[o_]
+            elif o_ == "rustix::fs::ioctl::ioctl_ficlone" and len(t.get("args", [])) == 2:
+                # ioctl_ficlone(dst, src) == ioctl(dst, FICLONE, src), answered as a Result instead of a status
+                fn_["orig_alias_of"] = o_
+                fn_["orig"] = fn_["path"] = LIBC_IOCTL
+                t["args"] = [t["args"][0], {"c": {"ty": "u64", "v": FICLONE_REQ}}, t["args"][1]]
+                if t.get("arg_tys"):
+                    t["arg_tys"] = [t["arg_tys"][0], "u64", t["arg_tys"][1]]
+            elif o_ == "rustix::ioctl::ioctl" and len(t.get("args", [])) == 2 and str(FIEMAP_REQ) in " ".join(t.get("arg_tys") or []):
+                fn_["orig_alias_of"] = o_
+                fn_["orig"] = fn_["path"] = LIBC_IOCTL
+                t["args"] = [t["args"][0], {"c": {"ty": "u64", "v": FIEMAP_REQ}}, t["args"][1]]
+                t["arg_tys"] = [t["arg_tys"][0], "u64", t["arg_tys"][1]]
             if (fn_.get("orig") in BUILDER_SPAWN or fn_.get("path") in BUILDER_SPAWN) and len(t.get("args", [])) == 2:
                 fn_["orig_builder"] = fn_.get("orig")
                 fn_["orig"] = "std::thread::functions::spawn"
@@ -345,6 +395,43 @@ def _normalise_calls(j):
                 if t.get("arg_tys"):
                     t["arg_tys"] = t["arg_tys"][1:]
                 t["spawn_via_builder"] = True
+
+
+def _bypass_api_wrappers(crates):
+    """libfs exporting `pub fn map_extents(fd) { Native::map_extents(fd) }` (a thin wrapper in lib.rs over a backend
+    trait or module) instead of `pub use backend::map_extents`: calls of the wrapper are presented as calls of the
+    backend function it forwards to, which is then the exported primitive the rules are written against."""
+    lf = crates.get("libfs")
+    if lf is None:
+        return
+    paths = set(f["path"] for f in lf.get("fns", []))
+    byp = {}
+    for name in LIBFS_COMMON_FNS + LIBFS_BACKEND_FNS:
+        w = "libfs::" + name
+        if w not in paths:
+            continue
+        for canon in ("libfs::linux::" + name, "libfs::fallback::" + name, "libfs::common::" + name):
+            if canon in paths:
+                byp[w] = canon
+                break
+    if not byp:
+        return
+    for f in lf.get("fns", []):
+        if f["path"] in byp.values():
+            f["exported"] = True
+    for j in crates.values():
+        for f in j.get("fns", []):
+            if f["path"] in byp:
+                continue
+            for b in f.get("blocks", []):
+                t = b.get("term") or {}
+                if t.get("k") == "call":
+                    fn_ = t.get("fn") or {}
+                    if fn_.get("path") in byp:
+                        fn_["via_wrapper"] = fn_["path"]
+                        fn_["path"] = byp[fn_["path"]]
+                        if fn_.get("orig") in byp:
+                            fn_["orig"] = byp[fn_["orig"]]
 
 
 def load(cfg="A"):
@@ -365,6 +452,7 @@ def load(cfg="A"):
         j = json.loads(t)
         _normalise_calls(j)
         crates[j["crate"]] = j
+    _bypass_api_wrappers(crates)
     fx = Facts(cfg, crates)
     with open(os.path.join(d, "OK")) as f:
         fx.meta = json.load(f)
